@@ -286,6 +286,7 @@ func (eng *Engine) buildVCq(fn *ssa.Function, ct *Contract, qf int) (vc *VC, err
 			}
 		}
 		vc.paramVals[p.Name()] = specVal{term: n, typ: p.Type()}
+		vc.pin(n, p.Type())
 	}
 	for _, fv := range fn.FreeVars {
 		n := vc.fresh("fv."+fv.Name(), vc.sortOf(fv.Type()))
